@@ -736,6 +736,8 @@ class Interp:
         if reaped:
             self.probes['process_with_nonempty_dead'] += 1
         expected_procs = [j for q, j in self.procs]
+        if ghosts and not self.enabled:
+            return 'skip'       # out of premise and callbacks would queue
         if ghosts:
             return self.ghost_frame(op, start, dt, reaped)
         # model first: reaping happens before any processor runs
